@@ -3,7 +3,7 @@ from fractions import Fraction as F
 
 from sim.chart import Cfg, swarm, gen_spec
 from sim.engine import Result, Abandon, fp
-from sim.probes import SimClock, SkewClock
+from sim.probes import SimClock, SkewClock, IntClock
 from sim.semrun import Sim, TICK, legal_or_abandon, materialise
 from sim.checks import common
 
@@ -14,7 +14,7 @@ STREAM_ORDER = ['ops', 'guards', 'mat', 'chart', 'cfg']
 RULE = ('well-formed chart drawn per run whose guards are P.tguard(i, event, after(d), idle(d2), time), whose states carry invariants '
         'P.tcond(j, after(d), idle(d2), time) and whose entry/exit/action code logs the `time` variable; contract checking is on. The '
         'interpreter clock is a SkewClock (a larger value at every read) in half of the runs and a SimClock moved from inside probe calls '
-        '(i.e. during the step) in the other half; advances are drawn from {0, exactly d, d -/+ one tick, large}. Every time observation '
+        '(i.e. during the step) in the other half - half of those count integer ticks from 2**62+3, which no double represents -; advances are drawn from {0, exactly d, d -/+ one tick, large}. Every time observation '
         'of a step must equal the first clock value read by execute_once, and every logged after/idle value must equal the exact '
         'comparison with entry / idle stamps kept by the model from the real entered lists and fired transitions. non-trivial = a step '
         'with >= 1 after/idle observation whose stamp differs from the step time; distinct = distinct (chart, step time, stamps of the '
@@ -34,15 +34,25 @@ def run(ch, tier):
     cs = ch.s('cfg')
     cfg = swarm(cs, Cfg(time_guards=True, time_obs=True, internal=True, pair_bias=0), tier)
     skew = cs.flag(1, 2)
+    bigint = not skew and cs.flag(1, 2)
     sp = gen_spec(ch.s('chart'), cfg)
-    clock = SkewClock() if skew else SimClock()
+    scale = 1
+    if bigint:
+        # an integer tick counter far beyond 2**53: every duration of the chart is expressed in ticks (1/64 time unit)
+        scale = 64
+        for t in sp.trans:
+            t.tg_after = None if t.tg_after is None else int(t.tg_after * 64)
+            t.tg_idle = None if t.tg_idle is None else int(t.tg_idle * 64)
+        for s_ in sp.states.values():
+            s_.tinv = [(j, None if a is None else int(a * 64), None if i is None else int(i * 64)) for j, a, i in s_.tinv]
+    clock = SkewClock() if skew else IntClock() if bigint else SimClock()
     sim = Sim(sp, clock=clock, ignore_contract=False, statechart=materialise(sp, ch, res))
     moves = [0]
     if not skew:
         mv = ch.s('moves')
 
         def on_probe(kind):
-            d = mv.pick([0, 0, 1 / 64, 1, 8])
+            d = mv.pick([0, 0, 1 / 64, 1, 8]) * scale
             if d:
                 moves[0] += 1
                 clock.advance(d)
@@ -66,7 +76,7 @@ def run(ch, tier):
             sim.queue(ops.pick(live) if live and ops.flag(3, 4) else ops.pick(names))
             continue
         if op == 'advance':
-            sim.advance(ops.pick([F(1), F(0), TICK, F(1) - TICK, F(1) + TICK, F(1, 2), F(2), F(3), F(2) - TICK, F(50)]))
+            sim.advance(scale * ops.pick([F(1), F(0), TICK, F(1) - TICK, F(1) + TICK, F(1, 2), F(2), F(3), F(2) - TICK, F(50)]))
             continue
         truth = sim.draw_truth(gs, 5, 8)
         del started[:]
@@ -83,7 +93,7 @@ def run(ch, tier):
                                     chart=sp.describe())
                 continue
             raise Abandon('other: unexpected %s' % r.exc_name())
-        ctx = dict(chart=sp.describe(), step=r.k, T=float(T), clock='SkewClock' if skew else 'SimClock moved by probes',
+        ctx = dict(chart=sp.describe(), step=r.k, T=float(T), clock='SkewClock' if skew else 'integer tick clock starting at 2**62+3, moved by probes' if bigint else 'SimClock moved by probes',
                    entry_stamps={k2: float(v) for k2, v in sorted(r.entry_before.items())},
                    idle_stamps={k2: float(v) for k2, v in sorted(r.idle_before.items())},
                    log=[e for e in r.log if e[0] in ('tguard', 'tcond', 'obs')][:20])
@@ -134,7 +144,7 @@ def run(ch, tier):
                     res.stats['internal_transition_fired'] += 1
                 elif t.target == t.source:
                     res.stats['self_loop_fired'] += 1
-    res.stats['skew_runs' if skew else 'probe_moved_runs'] += 1
+    res.stats['skew_runs' if skew else 'integer_tick_clock_beyond_2_53_runs' if bigint else 'probe_moved_runs'] += 1
     res.stats['fault_clock_moved_inside_step'] += moves[0] if not skew else clock.reads
     res.sim_time = float(sim.now())
     return res
